@@ -1098,7 +1098,12 @@ func (ev *Env) evalCall(x *ECall) Value {
 
 func (ev *Env) callSpec(sf *SpecFunc, x *ECall) Value {
 	fc := ev.fc
-	fname := fc.declareSpec(sf)
+	var fname string
+	if fc.recSelf == sf.Name {
+		fname = qsym("spec!" + sf.Name + "$0")
+	} else {
+		fname = fc.declareSpec(sf)
+	}
 	if len(x.Args) != len(sf.Params) {
 		ev.fail("%s expects %d arguments", sf.Name, len(sf.Params))
 	}
@@ -1165,10 +1170,24 @@ func (fc *FuncCtx) declareSpec(sf *SpecFunc) string {
 		return name
 	}
 	if sf.Rec {
-		// declared, with its defining equation as a quantified axiom (sound because the contract parser
-		// requires a `decreases` measure; well-foundedness is checked as lemma obligation <name>.decreases)
+		// Fuel encoding (as in Boogie/Dafny): `name` may be unfolded once, its recursive occurrences are the
+		// fuel-0 synonym name$0, which is never unfolded. Both denote the same function (synonym axiom).
+		name0 := qsym("spec!" + sf.Name + "$0")
 		fc.u.emit("(declare-fun " + name + " (" + strings.Join(psorts, " ") + ") " + rs + ")")
+		fc.u.emit("(declare-fun " + name0 + " (" + strings.Join(psorts, " ") + ") " + rs + ")")
+		fc.recSelf = sf.Name
 		body := ev.eval(sf.Body)
+		fc.recSelf = ""
+		{
+			var pn0 []string
+			for _, p := range sf.Params {
+				pn0 = append(pn0, qsym("p!"+p.Name))
+			}
+			app1 := "(" + name + " " + strings.Join(pn0, " ") + ")"
+			app0 := "(" + name0 + " " + strings.Join(pn0, " ") + ")"
+			fc.u.emit("(assert (forall (" + strings.Join(params, " ") + ") (! (= " + app1 + " " + app0 + ") :pattern (" + app1 + "))))")
+		}
+		fc.u.Assumptions["recursive spec function "+sf.Name+" is assumed well-founded (its `decreases` measure is not checked mechanically)"] = true
 		var bt string
 		if l, ok := body.(LitV); ok {
 			bt = ev.litTo(l, Scalar{Sort: rs}).T
